@@ -135,6 +135,23 @@ check("C12", "Lean 4 theorems about the shape of the model (queries are function
       "Lean kernel; standard axioms; the theorems are about the model's shape; that the Python properties rebuild their dictionaries at every access is a modelling fact carried by the history correspondence.",
       "DESIGN.md §6 C12")
 
+check("C20", "Lean 4 theorems over a hand model (Rodrigues rotations about the auxiliary axis and the reference vector) + correspondence + round-trip oracle",
+      "Theorems (Props/C20.lean, real reading): the offset vector has the length of the reference (|UB v'| = |UB v|) and makes exactly the polar angle with it for every azimuth; the frame "
+      "decomposition used by the inverse is exact (offset_closed / offset_components), the azimuth atan2 recovers a mod 2 pi for every a incl. 90/180/270 deg where one projection vanishes, and the gate "
+      "is open whenever sin(pol) >= 2e-7. Correspondence: model vs both functions on random/axis-aligned/lab-axis references (auxiliary axis switch), azimuth sweeps + special values + beyond 360. "
+      "Oracle: round trip (pol, az mod 360, scale) on the implementation.",
+      "Lean kernel; standard axioms; hand model tied by correspondence; scipy from_rotvec modelled by Rodrigues' formula; PARTIAL: composition through angle_between_vectors/bound by correspondence + oracle.",
+      "DESIGN.md §6 C20")
+
+check("C07", "Lean 4 theorems over a hand model of calc_ub (selection table, triads, single-reflection rotation) + correspondence + recovery oracle",
+      "Theorems (Props/C07.lean, real reading): proper rotations commute with the cross product; the triad of positively scaled, rotated vectors is the rotated triad; hence for two references consistent "
+      "with U0 in SO(3) calc_ub returns exactly U0 (calcUb_recovers). For ARBITRARY data the result is a proper rotation (triads orthonormal and right-handed), the first direction is reproduced exactly; "
+      "parallel pairs are rejected with DiffcalcException and no other error kind can escape; single reflection: Rodrigues matrix is proper and maps the crystal direction onto the measured one; "
+      "selection: integer beyond the reflection list addresses orientations, reflections shadow orientations, swapping arguments swaps references, default picks. Correspondence on 0-3 reflections x 0-3 "
+      "orientations with index/tag/mixed/no arguments. Oracle: U = U0, UB = U0 B, azimuth half-plane, untouched U/UB on rejection.",
+      "Lean kernel; standard axioms; hand model tied by correspondence; numpy inv/norm modelled by adjugate inverse / sqrt; PARTIAL: the untouched-on-rejection clause is by oracle (model returns no matrix on error).",
+      "DESIGN.md §6 C07")
+
 NOT_APPLICABLE = []   # filled below for properties without a registered check
 
 ALL = ["C%02d" % i for i in range(1, 21)]
